@@ -146,6 +146,7 @@ func loadRepo(dir string, overlay map[string][]byte) (*Ctx, error) {
 			}
 		}
 	}
+	curCtx = c
 	return c, nil
 }
 
